@@ -99,6 +99,7 @@ def provider_createAllSingletonsWithContext : List Ev := [
   .chanRecv "ctx.Done()" [],
   .ret [],
   .call "p.getSingleton" [],
+  .ret [],   -- the identity of a result-object field the constructor left nil (b8e004e)
   .call "p.rootScope.createInstance" [],
   .ret []
 ]
@@ -188,6 +189,7 @@ def scope_createInstance : List Ev := [
   .call "invoker.Invoke" [],   -- rCtor / tCtor / the initializer (USER), after the parameters were resolved through s.Get
   .call "s.setInstance" [],
   .call "s.setInstance" [],
+  .call "s.shareInstance" [],   -- nil result-object fields are remembered as constructed (b8e004e); not in M6 (no fan-out)
   .call "s.setInstance" [],
   .call "s.setInstance" [],
   .call "s.shareInstance" []
